@@ -27,6 +27,7 @@ int eintr_fired();
 // ---- IPC name space
 int last_sem_obj();                                 // object id returned by the current task's last successful sem_open (-1 none)
 int last_shm_obj();
+bool last_shm_created();                            // the current task's last shm_open created the object
 const char *last_sem_name();                        // platform key used by the current task's last sem_open
 const char *last_shm_name();
 int sem_value(int obj);
